@@ -34,6 +34,7 @@ RULE += (' Also: scopes over borrowed handles left by an Exception / BaseExcepti
 RULE += (' Also: a front-end iterator whose __aiter__ hands out the inner iterator shared with its owner.')
 RULE += (' Also: a refused re-entry of the active scope context inside the block; a stale-group poll tool.')
 RULE += (' Also: a tool running a groupby whose key fails once over the borrowed handle.')
+RULE += (' Also: after a refused close (read pending) the idle handle is closed again and must be dead; degenerate-parameter tools (nlargest 0, nsmallest -1, islice 0) on shared handles.')
 ASSUMPTIONS = ["laziness of the tools themselves is C05's concern; here the stdlib twin predicts how many items a tool takes",
                "athrow is not part of the property's operation list and is not generated"]
 EXHAUSTIVE_SUBSPACES = 'all histories of length <= 3 (thorough: 4) over a 13-operation alphabet'
@@ -228,6 +229,11 @@ TOOLS = {
     "all": ("agg", lambda h: A.all(h), lambda it: all(it)),
     "min": ("agg", lambda h: A.min(h, default=None), lambda it: min(it, default=None)),
     "nlargest2": ("agg", lambda h: A.nlargest(h, 2), lambda it: heapq.nlargest(2, it)),
+    # degenerate parameters with which the counterpart does not touch its input at all: the shared handle stays where
+    # it is, for whoever uses it next
+    "nlargest0": ("agg", lambda h: A.nlargest(h, 0), lambda it: heapq.nlargest(0, it)),
+    "nsmallest_neg": ("agg", lambda h: A.nsmallest(h, -1), lambda it: heapq.nsmallest(-1, it)),
+    "islice_0": ("iter", lambda h: A.islice(h, 0), lambda it: itertools.islice(it, 0)),
     "reduce": ("agg", lambda h: A.reduce(lambda a, b: a, h, None), lambda it: __import__("functools").reduce(lambda a, b: a, it, None)),
     "sum_items": ("agg", lambda h: A.sum(h, Item(0, "s")), lambda it: sum(it, Item(0, "s"))),
 }
@@ -705,6 +711,35 @@ def run_conc_close(case, stats):
                 break
     elif "refused" in info:
         stats["concurrent_close_refused"] += 1
+        if case["via"] != "scope" and all(t.done for t in driver.tasks):
+            # the refused attempt closed nothing - and spoiled nothing: once the handle is idle again, closing it works
+            # like any first close (the handle ends, the underlying stays where it is)
+            async def close_again():
+                out = {}
+                try:
+                    await target.aclose()
+                    out["close"] = "ok"
+                except BaseException as exc:  # noqa: BLE001
+                    out["close"] = repr(exc)
+                pos = st.pos
+                for name in ("__anext__", "asend"):
+                    # (the object that was closed is probed: ``asend`` through a VIEW of a closed parent is not fixed
+                    # by the property, see DESIGN section 8)
+                    if not hasattr(target, name):
+                        continue
+                    try:
+                        out[name] = await (target.__anext__() if name == "__anext__" else target.asend(None))
+                    except StopAsyncIteration:
+                        out[name] = "STOP"
+                    except BaseException as exc:  # noqa: BLE001
+                        out[name] = repr(exc)
+                out["advanced"] = st.pos - pos
+                return out
+            out = drive(close_again())
+            stats["closes_repeated_after_a_refused_attempt"] += 1
+            if out["close"] != "ok" or out.get("__anext__", "STOP") != "STOP" or out.get("asend", "STOP") != "STOP" or out["advanced"]:
+                viols.append({"key": "borrow/close-after-refused-close-does-not-close",
+                              "msg": f"{head}: the close was refused; closing the idle handle afterwards gave {out}"})
     # the owner gets everything not yet fetched, in order
     rest = []
 
